@@ -457,9 +457,29 @@ def dense_substitution_all_n(rep: Report):
             return [("returns_array", True), ("shape", sand(val.vshape[0] == n, val.vshape[1] == k)),
                     ("every_row_satisfies_the_substitution_recurrence", ix.scal_eq(val.at(i0, c0), dinv(Tm, i0) * (B.at(i0, c0) - total)))]
         from .c01 import dims
+
+        def model_replay(inputs, lower=lower, fn=fn):
+            """run-time contract on the real code for a concrete (T, B): T X = B to 1e-9 when the diagonal is well away from zero"""
+            from .. import runtime as rt
+            T4, B4 = inputs.get("T"), inputs.get("B")
+            if T4 is None or B4 is None:
+                return None
+            n_ = T4.shape[0]
+            T4 = T4.copy()
+            for i in range(n_):
+                for j in range(n_):
+                    if (lower and j > i) or (not lower and j < i):
+                        T4[i, j] = 0.0                      # the routine only reads its triangle
+            if min(np.linalg.norm(T4[i, i]) for i in range(n_)) < 1e-3:
+                return None
+            X = getattr(rt.real().solver, fn)(rt.q_from4(T4), rt.q_from4(B4))
+            err = rt.fro(rt.qmm(T4, rt.q_to4(X)) - B4)
+            if not err <= 1e-9 * max(1.0, rt.fro(B4), rt.fro(T4)):
+                return {"what": "T X != B on the concrete counterexample", "err": err}
+            return None
         run_case(rep, P, QN, "all_n", setup, post, lib=Library("idx"),
                  loop_rules={(QN, 0): Outer(), (QN, 1): Inner(), (QN, 2): Cols()},
-                 clauses=["returns_array", "shape", "every_row_satisfies_the_substitution_recurrence"], replay=replay_solves, timeout_s=60)
+                 clauses=["returns_array", "shape", "every_row_satisfies_the_substitution_recurrence"], replay=replay_solves, timeout_s=60, model_replay=model_replay)
 
 
 def utriangle_all_n(rep: Report):
@@ -590,12 +610,31 @@ def utriangle_all_n(rep: Report):
     lib = Library("idx")
     eps_model(lib)
     from .c01 import dims
+    def model_replay(inputs):
+        from .. import runtime as rt
+        try:
+            R4 = np.stack([inputs[f"R{c}"] for c in range(4)], axis=-1)
+            B4 = np.stack([inputs[f"B{c}"] for c in range(4)], axis=-1)
+        except KeyError:
+            return None
+        n_ = R4.shape[0]
+        for i in range(n_):
+            R4[i, :i] = 0.0
+        if min(np.linalg.norm(R4[i, i]) for i in range(n_)) < 1e-3:
+            return None
+        x = rt.real().utils.UtriangleQsparse(*[R4[..., c].copy() for c in range(4)], *[B4[..., c].copy() for c in range(4)])
+        X4 = np.stack(list(x), axis=-1)
+        err = rt.fro(rt.qmm(R4, X4) - B4)
+        if not err <= 1e-9 * max(1.0, rt.fro(B4), rt.fro(R4)):
+            return {"what": "R X != B on the concrete counterexample", "err": err}
+        return None
     for nonsingular in (True, False):
         rule = Rows()
         rule.nonsingular = nonsingular
         run_case(rep, P, QN, "all_n.nonsingular" if nonsingular else "all_n.any_diagonal", lambda I, ctx, ns=nonsingular: setup(I, ctx, ns), post, lib=lib,
                  contracts={U + "timesQsparse": k_times}, loop_rules={(QN, 0): rule},
-                 clauses=["returns_the_overwritten_right_hand_side"] + (["every_row_is_solved"] if nonsingular else []), replay=replay_solves, timeout_s=60, max_paths=300)
+                 clauses=["returns_the_overwritten_right_hand_side"] + (["every_row_is_solved"] if nonsingular else []), replay=replay_solves, timeout_s=60, max_paths=300,
+                 model_replay=model_replay)
 
 
 def hess_qr_sweep_all_sizes(rep: Report):
